@@ -111,9 +111,11 @@ structure JobSt where
   deps : List Nat
   /-- `_command`: the interpolated commands -/
   commands : List Str
+  /-- a `PythonJob` (else a `BashJob`) -/
+  python : Bool := false
   deriving Repr
 
-def JobSt.empty (dirname : Str) : JobSt := ⟨dirname, [], [], [], [], [], [], [], []⟩
+def JobSt.empty (dirname : Str) (python : Bool := false) : JobSt := ⟨dirname, [], [], [], [], [], [], [], [], python⟩
 
 structure St where
   /-- `_resource_map`, file part: number ↦ object (creation order) -/
@@ -441,7 +443,7 @@ def step (st : St) : Stmt → Except Err St
     let j := st.nJobs
     .ok { st with tokCount := st.tokCount + 1, nJobs := j + 1, job := fun k => if k = j then JobSt.empty dirname else st.job k }
   | .rgroup j gname files =>
-    if j < st.nJobs then
+    if j < st.nJobs ∧ ¬ (st.job j).python then
       if ((st.job j).resources.lookup gname).isSome then .error .notDsl      -- `assert name not in self._resources`
       else
         let g := st.rgCount
@@ -451,7 +453,7 @@ def step (st : St) : Stmt → Except Err St
           { js with resources := js.resources ++ [(gname, Rid.group g)], valid := st1.addToSet js.valid (Rid.group g) })
     else .error .notDsl
   | .cmd j pieces =>
-    if j < st.nJobs then
+    if j < st.nJobs ∧ ¬ (st.job j).python then      -- `command` exists on BashJob only
       match renderPieces st pieces [] with
       | .error e => .error e
       | .ok (st1, command) =>
@@ -475,9 +477,9 @@ def step (st : St) : Stmt → Except Err St
     let tok := token (st.tokCount + 1)
     let j := st.nJobs
     .ok { st with tokCount := st.tokCount + 1, nJobs := j + 1,
-                  job := fun k => if k = j then JobSt.empty (jobDirname name tok) else st.job k }
+                  job := fun k => if k = j then JobSt.empty (jobDirname name tok) true else st.job k }
   | .pycall j args =>
-    if j < st.nJobs then
+    if j < st.nJobs ∧ (st.job j).python then
       match resolveAll st args with
       | .error e => .error e
       | .ok (st1, rids) => applyRefs st1 j rids
@@ -489,7 +491,7 @@ def step (st : St) : Stmt → Except Err St
       -- a JobResourceFile of a BashJob must have been mentioned by its source
       let bad := match rid with
         | .file n => match (st1.file? n).bind FileRes.source with
-          | some p => decide (rid ∉ (st1.job p).mentioned)
+          | some p => !(st1.job p).python && decide (rid ∉ (st1.job p).mentioned)
           | none => false
         | .group _ => false
       if bad then .error .batchException else .ok (addOutputPath st1 rid dest)
